@@ -409,7 +409,17 @@ func (c *gctx) stateProbe(depth int, consuming bool) *Expr {
 		return &Expr{Kind: Seq, Subs: []*Expr{{Kind: k, Subs: []*Expr{probe()}}, observer(c.terminal())}}
 	case 3: // optional probe
 		body := probe()
-		switch c.r.Intn(3) {
+		switch c.r.Intn(4) {
+		case 3:
+			// the sequence starts with a group that has an action of its own and a
+			// state block inside, and fails later
+			if c.cfg.Actions {
+				lead := &Expr{Kind: Action, Subs: []*Expr{{Kind: Seq, Subs: []*Expr{c.terminal(), {Kind: State}}}}}
+				body = &Expr{Kind: Seq, Subs: []*Expr{lead, pred()}}
+				if c.chance(1, 2) {
+					body = &Expr{Kind: Seq, Subs: []*Expr{lead, c.terminal(), pred()}}
+				}
+			}
 		case 0: // matches, and the value of the match is nil
 			body = &Expr{Kind: State}
 		case 1: // matches or not; when it does the action may return a nil value
